@@ -68,6 +68,41 @@ def eval_function(world, modname, path, bind=None):
     raise AnalysisError(f"anchor {modname}:{path} is not a function")
 
 
+def registered_closure(world, modname, outer, api_suffix):
+    """Evaluate the module-level function `outer` symbolically and return the function it hands to the registration
+    API whose qualified name ends with `api_suffix` (defvjp -> defvjp_argnums(fun, <dispatcher>)), wherever that
+    function is defined (nested def, lambda, or a module-level factory called with the captured values):
+    (closure term, outer parameter symbols, module, outer def node, outer scope).  The anchor is the registration
+    call, not the name of the nested function."""
+    r, syms, m, fn, sc = eval_function(world, modname, outer)
+    ev = world.ev
+    regs = [t for e in sc.effects for t in walk(e) if t.op == "call" and t.fn.op == "ref" and t.fn.ref.qual.endswith(api_suffix)]
+    if len(regs) != 1 or len(regs[0].args) < 2:
+        raise AnalysisError(f"anchor {modname}:{outer} no longer registers exactly one function with {api_suffix}")
+    clo, pre, prekw = ev.as_closure(regs[0].args[-1])
+    if clo is None:
+        raise AnalysisError(f"anchor {modname}:{outer}: the function handed to {api_suffix} is not inlinable")
+    return clo, pre, prekw, syms, m, fn, sc, regs[0]
+
+
+def returned_closure(world, modname, outer):
+    """the function object a decorator-like `outer` returns: the closure itself or the last argument of a chain of
+    wrapping calls (wraps(f)(closure))"""
+    r, syms, m, fn, sc = eval_function(world, modname, outer)
+    t = strip_seq(r)
+    top = t
+    for _ in range(6):
+        if t is None:
+            break
+        if t.op == "closure":
+            return t, top, syms, m, fn, sc
+        if t.op == "call" and t.args:
+            t = strip_seq(t.args[-1])
+            continue
+        break
+    raise AnalysisError(f"anchor {modname}:{outer} no longer returns a (wrapped) nested function")
+
+
 def _until_def(body, name):
     """statements of an enclosing function that precede (and do not include returns after) the inner def"""
     out = []
